@@ -326,7 +326,7 @@ fn main() {
     start_watchdog(600);
     sux::verif_hooks::set_point_hook(Some(vh::sched::hook));
     let t = ctx.thorough();
-    let bound: usize = ctx.opt("bound").map(|b| b.parse().unwrap()).unwrap_or(if t { 3 } else { 2 });
+    let bound: usize = ctx.opt("bound").map(|b| b.parse().unwrap()).unwrap_or(if t { 4 } else { 2 });
     let mut acc = Acc { ctx: &mut ctx, bound, outcomes: Default::default() };
 
     // 1. AtomicBitVec: pairs of single operations on {0,1,63,64}; then selected longer programs
